@@ -802,6 +802,9 @@ func ruleSGNames(c *Ctx) {
 func ruleBTPtrWrap(c *Ctx) {
 	c.Rule("BT-PTRWRAP", "every schema generated for a pointer is a union, because the pointer codec writes nothing for nil and relies on an enclosing union to write the null branch", 1)
 	P := c.P
+	if btPtrWrapByFold(c) {
+		return
+	}
 	t := schemaTableOf(P)
 	if !c.Anchor(t.fn != nil && t.ok, "schemaForType table") {
 		return
@@ -1161,6 +1164,57 @@ func schemaRootFn(P *Program) *ssa.Function {
 // slice, a map and a pointer. Registry hits (the unknown result of looking
 // the type up in a package-level map, decided "found") are left to SG-REG.
 // Reports false, having emitted nothing, when a fold fails.
+// sgFoldRun: schema generation folded for one type; registry hits excluded: the set of schema types produced
+// ("reject" for an error) and the outcomes they come from.
+func sgFoldRun(P *Program, root *ssa.Function, rt *cpRType) (map[string]bool, []cpOutcome, bool) {
+	outs, _, ok, _ := cpFoldOpt(P, root, []cpVal{rt}, nil)
+	if !ok {
+		return nil, nil, false
+	}
+	got := map[string]bool{}
+	var kept []cpOutcome
+	for _, o := range outs {
+		if o.Panics {
+			got["panic"] = true
+			continue
+		}
+		if len(o.Results) != 2 {
+			return nil, nil, false
+		}
+		// a registry hit anywhere on the way makes the result (partly) whatever was registered
+		hit := false
+		for _, cl := range o.Calls {
+			if cl.Callee != "maplookup" {
+				continue
+			}
+			if tup, isT := cl.Result.(cpTuple); isT && len(tup.Vs) == 2 {
+				if u, isU := tup.Vs[1].(cpUnk); isU && o.Decided[u.ID] {
+					hit = true
+				}
+			}
+		}
+		if hit {
+			continue
+		}
+		kept = append(kept, o)
+		switch ev := o.Results[1].(type) {
+		case cpNil:
+			tv, _ := cpFieldByName(o.Results[0], "Type")
+			if ts, isS := tv.(cpStr); isS {
+				got[ts.V] = true
+			} else {
+				got["?"] = true
+			}
+		case cpIface:
+			_ = ev
+			got["reject"] = true
+		default:
+			got["?"] = true
+		}
+	}
+	return got, kept, true
+}
+
 func sgMapByFold(c *Ctx) bool {
 	P := c.P
 	root := schemaRootFn(P)
@@ -1173,55 +1227,7 @@ func sgMapByFold(c *Ctx) bool {
 	}
 	var vs []verdict
 	tab := map[string]string{}
-	// outcome of one fold, registry hits excluded: the set of schema types produced ("reject" for an error)
-	run := func(rt *cpRType) (map[string]bool, []cpOutcome, bool) {
-		outs, _, ok, _ := cpFoldOpt(P, root, []cpVal{rt}, nil)
-		if !ok {
-			return nil, nil, false
-		}
-		got := map[string]bool{}
-		var kept []cpOutcome
-		for _, o := range outs {
-			if o.Panics {
-				got["panic"] = true
-				continue
-			}
-			if len(o.Results) != 2 {
-				return nil, nil, false
-			}
-			// a registry hit anywhere on the way makes the result (partly) whatever was registered
-			hit := false
-			for _, cl := range o.Calls {
-				if cl.Callee != "maplookup" {
-					continue
-				}
-				if tup, isT := cl.Result.(cpTuple); isT && len(tup.Vs) == 2 {
-					if u, isU := tup.Vs[1].(cpUnk); isU && o.Decided[u.ID] {
-						hit = true
-					}
-				}
-			}
-			if hit {
-				continue
-			}
-			kept = append(kept, o)
-			switch ev := o.Results[1].(type) {
-			case cpNil:
-				tv, _ := cpFieldByName(o.Results[0], "Type")
-				if ts, isS := tv.(cpStr); isS {
-					got[ts.V] = true
-				} else {
-					got["?"] = true
-				}
-			case cpIface:
-				_ = ev
-				got["reject"] = true
-			default:
-				got["?"] = true
-			}
-		}
-		return got, kept, true
-	}
+	run := func(rt *cpRType) (map[string]bool, []cpOutcome, bool) { return sgFoldRun(P, root, rt) }
 	for k := reflect.Bool; k <= reflect.UnsafePointer; k++ {
 		variants := []struct {
 			key  string
@@ -1440,5 +1446,65 @@ func sgOrderByFold(c *Ctx) bool {
 	c.Check(same, key+"/same-field", pos, msg, "a record field is not named and typed from its own struct field: "+detail)
 	c.Check(skip, key+"/skip-dash", pos, msg, "fields are not included exactly when they are exported and not tagged \"-\": "+detail)
 	c.Check(once, key+"/one-append", pos, msg, "a struct field appears more than once: "+detail)
+	return true
+}
+
+// btPtrWrapByFold decides BT-PTRWRAP by folding schema generation (E-CP) for pointers to a value of every
+// shape: what comes out must be a union. The obligation keys are those of the older reading of the
+// dispatch table (ptr->union, ptr-><schema type> for an element type that is passed through unwrapped).
+func btPtrWrapByFold(c *Ctx) bool {
+	P := c.P
+	root := schemaRootFn(P)
+	if root == nil {
+		return false
+	}
+	type verdict struct {
+		key, pos, msg string
+		ok            bool
+	}
+	var vs []verdict
+	seen := map[string]bool{}
+	for _, pe := range []struct {
+		name string
+		k    reflect.Kind
+		byte bool
+	}{{"bool", reflect.Bool, false}, {"int32", reflect.Int32, false}, {"int64", reflect.Int64, false}, {"float64", reflect.Float64, false}, {"string", reflect.String, false},
+		{"[]int64", reflect.Slice, false}, {"[]byte", reflect.Slice, true}, {"[4]int64", reflect.Array, false}, {"map", reflect.Map, false}, {"*int64", reflect.Ptr, false}, {"struct", reflect.Struct, false}} {
+		elem := cpRTypeOfKind(pe.k, pe.byte)
+		rt := &cpRType{ID: "*" + elem.ID, Kind: int64(reflect.Ptr), Elem: elem, Size: 8}
+		got, _, ok := sgFoldRun(P, root, rt)
+		if !ok {
+			return false
+		}
+		if len(got) > 1 {
+			delete(got, "reject")
+		}
+		for typ := range got {
+			if typ == "reject" {
+				continue
+			}
+			key := "avro.schemaForType/ptr->" + typ
+			if seen[key] {
+				continue
+			}
+			seen[key] = true
+			if typ == "union" {
+				vs = append(vs, verdict{key: key, ok: true, msg: "wrapped as [null, T] (generation folded for pointers to values of every shape)"})
+			} else {
+				vs = append(vs, verdict{key: key, msg: fmt.Sprintf("a pointer to a %s (%s) is given the plain %s schema: a nil pointer is written as nothing at all, which is not an encoding of an Avro %s (and a **T with an inner nil likewise)", typ, pe.name, typ, typ)})
+			}
+		}
+	}
+	if !seen["avro.schemaForType/ptr->union"] {
+		return false
+	}
+	sort.Slice(vs, func(i, j int) bool { return vs[i].key < vs[j].key })
+	for _, v := range vs {
+		if v.ok {
+			c.OK(v.key, P.pos(root.Pos()), v.msg)
+		} else {
+			c.Bad(v.key, P.pos(root.Pos()), v.msg)
+		}
+	}
 	return true
 }
